@@ -6,7 +6,7 @@ package main
 //
 //	op:     reflect <HEX of FileDescriptorSet (generated files only)> <descriptor summary tokens…>
 //	result: nolink
-//	        | linked=1 set=<ok SHAPE | err | panic> cache=[ <splitName>:<Schema class>:<NewRoot class> … ]
+//	        | linked=1 set=<ok SHAPE | err | panic> cache=[ <splitName>:<Schema class>:<NewRoot class>:cp=<client props> … ]
 //
 // ORACLE (the property as stated): SchemaSetFromFiles / SchemaCache.Schema / Reflector.NewRoot
 // return a value or an error — never panic, hang or overflow the stack; on success every
@@ -279,14 +279,17 @@ func reflectOnce(h *vh.H, op string, fds *descriptorpb.FileDescriptorSet) string
 				fail(h, "newroot-error-after-schema-ok", op, string(md.FullName())+": "+rerr.Error())
 			}
 		}
-		cres = append(cres, vh.Hex([]byte(sn))+":"+class+":"+rootClass)
-
 		classes = append(classes, class)
 		dup := false
+		cpDump := "-" // client properties (objects only): name:path, in order
 		if class == "ok" {
 			if obj, ok := root.(*j5schema.ObjectSchema); ok {
 				var cp []*j5schema.ObjectProperty
-				if _, panicked, _ := guard(func() { cp = obj.ClientProperties() }); !panicked {
+				if _, panicked, _ := guard(func() { cp = obj.ClientProperties() }); panicked {
+					cpDump = "!"
+				} else {
+					cpDump = dumpClientProps(cp)
+					checkClientProps(h, op, obj, cp, md, idx)
 					names := map[string]bool{}
 					for _, p := range cp {
 						if names[p.JSONName] {
@@ -300,6 +303,7 @@ func reflectOnce(h *vh.H, op string, fds *descriptorpb.FileDescriptorSet) string
 			}
 		}
 		dupClient = append(dupClient, dup)
+		cres = append(cres, vh.Hex([]byte(sn))+":"+class+":"+rootClass+":cp="+cpDump)
 	}
 	// codec: empty + one field at a time for every message; the all-fields case only when nothing
 	// failed before (it would repeat a per-field finding under a broader signature)
@@ -326,6 +330,78 @@ func reflectOnce(h *vh.H, op string, fds *descriptorpb.FileDescriptorSet) string
 	// linked=1: the set passed protodesc; the Lean side evaluates the theorems' hypothesis `linked`
 	// on the summary and must agree
 	return "linked=1 set=" + setRes + " cache=[ " + strings.Join(cres, " ") + " ]"
+}
+
+// dumpClientProps: `hexName/1.2.3,…` (`~` for an empty path, `-` for an empty list); compared
+// with the model's `clientProps`.
+func dumpClientProps(cp []*j5schema.ObjectProperty) string {
+	if len(cp) == 0 {
+		return "-"
+	}
+	var parts []string
+	for _, p := range cp {
+		path := "~"
+		if len(p.ProtoField) > 0 {
+			var ns []string
+			for _, n := range p.ProtoField {
+				ns = append(ns, fmt.Sprint(int32(n)))
+			}
+			path = strings.Join(ns, ".")
+		}
+		parts = append(parts, vh.Hex([]byte(p.JSONName))+"/"+path)
+	}
+	return strings.Join(parts, ",")
+}
+
+// checkClientProps: every client property of an object — after flattening, however deep — leads
+// from the object's own message, through singular message fields, to a field its schema describes
+// (or, for the wrapper of an exposed oneof of a flattened message, to that message field), and two
+// client properties never lead to the same field.
+func checkClientProps(h *vh.H, op string, obj *j5schema.ObjectSchema, cp []*j5schema.ObjectProperty, md protoreflect.MessageDescriptor, idx nameIndex) {
+	if ds := idx[obj.FullName()]; len(ds) != 1 {
+		return // colliding names: nothing to resolve against
+	}
+	seenPath := map[string]string{}
+	for _, p := range cp {
+		where := obj.FullName() + "." + p.JSONName + " (client)"
+		if len(p.ProtoField) == 0 {
+			continue // exposed oneof of the object itself: checked by checkRoot
+		}
+		walk := md
+		var fd protoreflect.FieldDescriptor
+		okPath := true
+		for i, n := range p.ProtoField {
+			fd = walk.Fields().ByNumber(n)
+			if fd == nil {
+				fail(h, "client-path-unresolved", op, fmt.Sprintf("%s: field %d not in %s", where, n, walk.FullName()))
+				okPath = false
+				break
+			}
+			if i < len(p.ProtoField)-1 {
+				if fd.Kind() != protoreflect.MessageKind || fd.IsList() || fd.IsMap() {
+					fail(h, "client-path-through-non-message", op, where)
+					okPath = false
+					break
+				}
+				walk = fd.Message()
+			}
+		}
+		if !okPath {
+			continue
+		}
+		if _, isOneof := p.Schema.(*j5schema.OneofField); isOneof && fd.Kind() == protoreflect.MessageKind && !fd.IsList() && !fd.IsMap() && !j5schema.IsOneofWrapper(fd.Message()) {
+			// the wrapper of an exposed oneof of a flattened message: the path ends at the
+			// flattened message field (several exposed oneofs of one message share it)
+			continue
+		}
+		key := fmt.Sprint(p.ProtoField)
+		if other, ok := seenPath[key]; ok {
+			fail(h, "client-path-shared", op, fmt.Sprintf("%s and %s both have proto path %s", where, other, key))
+			continue
+		}
+		seenPath[key] = p.JSONName
+		checkField(h, op, "client", where, p.Schema, fd, true, idx, map[string]bool{})
+	}
 }
 
 func isNilRoot(r j5schema.RootSchema) bool {
